@@ -183,3 +183,72 @@ func vh_C13_L3_learned_only_from_wellformed_parameter() {
 	vobserve("wf", vb2u(wellFormed))
 	vcover("end")
 }
+
+// C13.L2b: the emission rule on every path by which the writer puts a packet on the wire
+// (each kind of packet has its own gather function): ABORT, SACK, SHUTDOWN, SHUTDOWN-ACK,
+// SHUTDOWN-COMPLETE, FORWARD-TSN, DATA, RE-CONFIG, HEARTBEAT. Whatever this side accepts,
+// the checksum is zero exactly when the *peer* declared zero checksums acceptable.
+func vh_C13_L2_every_gather_path() {
+	a, _ := vNewAssoc()
+	a.sendZeroChecksum = nondetBool()
+	a.recvZeroChecksum = nondetBool()
+	cum := a.peerLastTSN()
+	want := 1
+	switch vPick(9) {
+	case 0:
+		a.lock.Lock()
+		a.willSendAbort = true
+		a.willSendAbortCause = &errorCauseUserInitiatedAbort{upperLayerAbortReason: nondetBytes(2)}
+		a.lock.Unlock()
+		a.awakeWriteLoop()
+	case 1:
+		vassert(vDeliver(a, vDataChunk(a, cum+2, 1, false, 1)) == nil, "DATA ok") // a gap: SACK at once
+	case 2:
+		a.setState(shutdownSent)
+		a.lock.Lock()
+		a.willSendShutdown = true
+		a.lock.Unlock()
+		a.awakeWriteLoop()
+	case 3:
+		a.setState(shutdownAckSent)
+		a.lock.Lock()
+		a.willSendShutdownAck = true
+		a.lock.Unlock()
+		a.awakeWriteLoop()
+	case 4:
+		a.lock.Lock()
+		a.willSendShutdownComplete = true
+		a.lock.Unlock()
+		a.awakeWriteLoop()
+	case 5:
+		a.useForwardTSN = true
+		a.lock.Lock()
+		a.willSendForwardTSN = true
+		a.advancedPeerTSNAckPoint = a.cumulativeTSNAckPoint + 1
+		a.lock.Unlock()
+		a.awakeWriteLoop()
+		want = 0 // nothing to skip is in flight: the chunk may be omitted
+	case 6:
+		s, _ := a.OpenStream(1, PayloadTypeWebRTCBinary)
+		_, werr := s.WriteSCTP(nondetBytes(2), PayloadTypeWebRTCBinary)
+		vassert(werr == nil, "write accepted")
+	case 7:
+		s, _ := a.OpenStream(1, PayloadTypeWebRTCBinary)
+		vassert(s.Close() == nil, "close accepted") // RE-CONFIG
+	case 8:
+		a.ActiveHeartbeat()
+	}
+	pkts := vWriterWake(a)
+	vassert(len(pkts) >= want, "the packet goes out")
+	for _, raw := range pkts {
+		vassert(len(raw) >= 12, "packet has a header")
+		field := binary.LittleEndian.Uint32(raw[8:])
+		if a.sendZeroChecksum {
+			vassert(field == 0, "zero checksum once the peer declared it acceptable")
+		} else {
+			vassert(field == generatePacketChecksum(raw), "a correct CRC32c otherwise, whatever this side itself accepts")
+		}
+	}
+	vobserve("n", uint64(len(pkts)))
+	vcover("end")
+}
